@@ -68,7 +68,15 @@ async fn stored(file: &Path) -> J {
         }).unwrap_or_else(|| "tombstone".into());
         let attrs = d["attrs"].as_object().map(|m| {
             m.iter().filter(|(a, _)| *a != "last_modified_cid" && *a != "created_at_cid")
-                .map(|(a, v)| format!("{a}={}", v.as_array().map(|x| x.iter().filter_map(|y| y.as_str()).collect::<Vec<_>>().join("+")).unwrap_or_default()))
+                .map(|(a, v)| {
+                    let mut vals: Vec<String> = v.as_array().map(|x| x.iter().filter_map(|y| y.as_str().map(String::from)).collect()).unwrap_or_default();
+                    if a == "key_internal_data" {
+                        // key ids are random (generated when the key object is created): keep status and type only
+                        vals = vals.iter().map(|s| s.split_once(": ").map(|p| p.1.to_string()).unwrap_or_else(|| s.clone())).collect();
+                        vals.sort();
+                    }
+                    format!("{a}={}", vals.join("+"))
+                })
                 .collect::<Vec<_>>().join(";")
         }).unwrap_or_default();
         ent.push(format!("{}[{}]{{{}}}<{}>", d["id"].as_str().unwrap_or("?"), d["live"].as_str().unwrap_or("?"), attrs, cids));
